@@ -67,4 +67,38 @@ theorem hand_theta (x y amp xo yo sx sy th : ℝ) (hsx : sx ≠ 0) (hsy : sy ≠
     R.real_pi, R.real_ofNat, Nat.cast_ofNat]
   rw [gaussHand_eq]; unfold D_theta U W rad; field_simp
 
+/-! ### the hand formulas equal the canonical closed forms (used by the property file when a regenerated
+    definition fell back to its hand definition: UNTRANSLATABLE source) -/
+
+theorem dmdsHand_eq_canon (x y amp xo yo sx sy th : ℝ) (hamp : amp ≠ 0) :
+    D_amp x y amp xo yo sx sy th = dmdsHand x y amp xo yo sx sy th := by
+  simp only [dmdsHand, r_div]
+  rw [gaussHand_eq]; unfold D_amp G; field_simp
+
+theorem dmdxoHand_eq_canon (x y amp xo yo sx sy th : ℝ) (hsx : sx ≠ 0) (hsy : sy ≠ 0) :
+    D_xo x y amp xo yo sx sy th = dmdxoHand x y amp xo yo sx sy th := by
+  simp only [dmdxoHand, r_add, r_sub, r_mul, r_div, r_neg, r_radians, R.real_sin, R.real_cos, R.real_npow]
+  rw [gaussHand_eq]; unfold D_xo U W rad; field_simp
+
+theorem dmdyoHand_eq_canon (x y amp xo yo sx sy th : ℝ) (hsx : sx ≠ 0) (hsy : sy ≠ 0) :
+    D_yo x y amp xo yo sx sy th = dmdyoHand x y amp xo yo sx sy th := by
+  simp only [dmdyoHand, r_add, r_sub, r_mul, r_div, r_neg, r_radians, R.real_sin, R.real_cos, R.real_npow]
+  rw [gaussHand_eq]; unfold D_yo U W rad; field_simp
+
+theorem dmdsxHand_eq_canon (x y amp xo yo sx sy th : ℝ) (hsx : sx ≠ 0) :
+    D_sx x y amp xo yo sx sy th = dmdsxHand x y amp xo yo sx sy th := by
+  simp only [dmdsxHand, r_add, r_sub, r_mul, r_div, r_neg, r_radians, R.real_sin, R.real_cos, R.real_npow]
+  rw [gaussHand_eq]; unfold D_sx U rad; field_simp
+
+theorem dmdsyHand_eq_canon (x y amp xo yo sx sy th : ℝ) (hsy : sy ≠ 0) :
+    D_sy x y amp xo yo sx sy th = dmdsyHand x y amp xo yo sx sy th := by
+  simp only [dmdsyHand, r_add, r_sub, r_mul, r_div, r_neg, r_radians, R.real_sin, R.real_cos, R.real_npow]
+  rw [gaussHand_eq]; unfold D_sy W rad; field_simp
+
+theorem dmdthetaHand_eq_canon (x y amp xo yo sx sy th : ℝ) (hsx : sx ≠ 0) (hsy : sy ≠ 0) :
+    D_theta x y amp xo yo sx sy th = dmdthetaHand x y amp xo yo sx sy th := by
+  simp only [dmdthetaHand, r_add, r_sub, r_mul, r_div, r_neg, r_radians, R.real_sin, R.real_cos, R.real_npow,
+    R.real_pi, R.real_ofNat, Nat.cast_ofNat]
+  rw [gaussHand_eq]; unfold D_theta U W rad; field_simp
+
 end Aegean.C04Hand
